@@ -5,6 +5,7 @@
 package refipfix
 
 import (
+	"bytes"
 	"encoding/binary"
 	"errors"
 	"fmt"
@@ -132,7 +133,9 @@ func EncodeValue(dst []byte, f Field, v Value) []byte {
 			}
 		}
 		return append(dst, v.B...)
-	case TMac, TIPv4, TIPv6:
+	case TIPv4, TIPv6:
+		return append(dst, CanonIP(f.Type, v.B)...)
+	case TMac:
 		return append(dst, v.B...)
 	}
 	w := f.Type.Width()
@@ -140,6 +143,20 @@ func EncodeValue(dst []byte, f Field, v Value) []byte {
 		dst = append(dst, byte(v.U>>(8*uint(i))))
 	}
 	return dst
+}
+
+// CanonIP returns the wire form of an address value: an application may hold an IPv4 address as 4
+// bytes or as the 16 bytes of its IPv4-mapped form (net.IP semantics: the same address); an
+// ipv4Address field carries the 4 bytes, an ipv6Address field the 16. Other lengths are returned
+// as they are (they have no faithful encoding; the checks that use them say so).
+func CanonIP(t Type, b []byte) []byte {
+	switch {
+	case t == TIPv6 && len(b) == 4:
+		return append([]byte{0, 0, 0, 0, 0, 0, 0, 0, 0, 0, 0xFF, 0xFF}, b...)
+	case t == TIPv4 && len(b) == 16 && bytes.Equal(b[:12], []byte{0, 0, 0, 0, 0, 0, 0, 0, 0, 0, 0xFF, 0xFF}):
+		return b[12:]
+	}
+	return b
 }
 
 // EncodedLen is the number of bytes EncodeValue produces.
@@ -153,7 +170,9 @@ func EncodedLen(f Field, v Value) int {
 			return len(v.B) + 3
 		}
 		return len(v.B)
-	case TMac, TIPv4, TIPv6:
+	case TIPv4, TIPv6:
+		return len(CanonIP(f.Type, v.B))
+	case TMac:
 		return len(v.B)
 	}
 	return f.Type.Width()
